@@ -109,10 +109,13 @@ ScrapeAll(w, ts) ==
   IF ts = <<>> THEN w
   ELSE LET t == Head(ts)
        IN ScrapeAll(S!Scrape(w, t, alive[t], size[t].series, size[t].total), Tail(ts))
-ScrapeRound(i) ==
-  /\ pc = "idle" /\ i <= nsh /\ DOMAIN sc[i].status # {}
-  /\ sc' = [sc EXCEPT ![i] = CapTimes(ScrapeAll(sc[i], SetToSortSeq(DOMAIN sc[i].status, <)))]
+\* the scrapes of the targets in TS complete on shard i (a whole round: TS = everything it holds; a round that was
+\* under way while a cycle ran: TS = what it had been asked before the cycle and still holds)
+ScrapeSet(i, TS) ==
+  /\ pc = "idle" /\ i <= nsh /\ TS \cap DOMAIN sc[i].status # {}
+  /\ sc' = [sc EXCEPT ![i] = CapTimes(ScrapeAll(sc[i], SetToSortSeq(TS \cap DOMAIN sc[i].status, <)))]
   /\ UNCHANGED <<nsh, disc, size, alive, est, clock, faults, envs, cyc, kvars>>
+ScrapeRound(i) == ScrapeSet(i, DOMAIN sc[i].status)
 
 (* ---- environment ---- *)
 Tick ==
